@@ -84,6 +84,7 @@ type lexer struct {
 	mu     sync.Mutex
 	eof    bool
 	err    error
+	perr   bool // err was reported by the parser
 	cancel chan struct{}
 
 	aliases   []*alias
@@ -1578,7 +1579,7 @@ func (l *lexer) scanCmdSubst(r rune) bool {
 				}
 			}
 			l.mu.Lock()
-			l.report(err)
+			l.report(err, false)
 			l.mu.Unlock()
 			break
 		}
@@ -1791,7 +1792,7 @@ func (l *lexer) read() (rune, error) {
 		case err == io.EOF:
 			l.eof = true
 		default:
-			l.report(err)
+			l.report(err, false)
 		}
 		l.mu.Unlock()
 	case r == '\n':
@@ -1821,8 +1822,10 @@ func (l *lexer) unread() {
 
 // report records err unless a more significant error has been recorded:
 // a read error is never replaced, and among syntax errors the first one
-// in the source is kept. l.mu must be held.
-func (l *lexer) report(err error) {
+// in the source is kept; at the same position (inside the text of an
+// alias) that is the one reported by the parser, whose token precedes
+// whatever the lexer is scanning. l.mu must be held.
+func (l *lexer) report(err error, parser bool) {
 	if l.err != nil {
 		old, ok := l.err.(Error)
 		if !ok {
@@ -1832,12 +1835,13 @@ func (l *lexer) report(err error) {
 			if strings.Contains(e.Msg, ": unexpected EOF") {
 				return // lexing was interrupted
 			}
-			if !e.Pos.Before(old.Pos) {
+			if !e.Pos.Before(old.Pos) && !(parser && !l.perr && e.Pos == old.Pos) {
 				return // the first error in the source is reported
 			}
 		}
 	}
 	l.err = err
+	l.perr = parser
 }
 
 // wait stops the lexer goroutine and waits for it to exit.
@@ -1854,10 +1858,14 @@ func (l *lexer) wait() {
 }
 
 func (l *lexer) Error(e string) {
-	l.error(l.last.Load().(ast.Pos), e)
+	l.errorFrom(l.last.Load().(ast.Pos), e, true)
 }
 
 func (l *lexer) error(pos ast.Pos, msg string) {
+	l.errorFrom(pos, msg, false)
+}
+
+func (l *lexer) errorFrom(pos ast.Pos, msg string, parser bool) {
 	verifPoint(7, l.cancel)
 	l.mu.Lock()
 	defer l.mu.Unlock()
@@ -1866,7 +1874,7 @@ func (l *lexer) error(pos ast.Pos, msg string) {
 		Name: l.name,
 		Pos:  pos,
 		Msg:  msg,
-	})
+	}, parser)
 
 	select {
 	case <-l.cancel:
